@@ -1,6 +1,8 @@
 //! Verification harness for avra-rs: executes the real library on inputs chosen by /verif/check
 //! and prints canonical observations.  Never linked into the repository itself.
 mod enc;
+mod exprs;
+mod sexp;
 mod hexw;
 mod tables;
 mod util;
@@ -18,6 +20,7 @@ fn main() {
         "devices" => tables::devices(),
         "ops" => tables::ops(),
         "enc" => enc::main(),
+        "expr" => exprs::main(),
         other => {
             eprintln!("unknown command {}", other);
             2
